@@ -35,7 +35,7 @@ Definition g_Scale (v_m : mat) (v_sx : Q) (v_sy : Q) : mat :=
 
 (* util.go:681 *)
 Definition g_Shear (v_m : mat) (v_sx : Q) (v_sy : Q) : mat :=
-  (g_Mul v_m (mkM 1 v_sy 0 v_sy 1 0)).
+  (g_Mul v_m (mkM 1 v_sx 0 v_sy 1 0)).
 
 (* util.go:694 *)
 Definition g_ReflectX (v_m : mat) : mat :=
